@@ -1,1 +1,576 @@
-//! gate rig (verification scaffolding, cfg(rustdds_verif))
+//! GateRig (C17): a real `MessageReceiver` with real `SecurityPlugins` (builtin
+//! authentication, access control and cryptography, configured from signed
+//! governance / permissions documents) and real `Reader`s on topics with
+//! different protection kinds plus the builtin bootstrap readers.
+//!
+//! The participant is registered as its own remote peer exactly as
+//! `SecureDiscovery::new` does ("so that we can receive our own secured
+//! messages"), which gives the rig a peer whose keys the receiver knows
+//! without running a second participant: correctly protected traffic is
+//! produced with the plugin's own encode operations.
+//!
+//! Datagrams go in through `MessageReceiver::handle_received_packet`; the rig
+//! reports what reached the readers (topic cache contents, writer proxy
+//! state) and the acknack channel.
+
+use std::{
+  path::PathBuf,
+  rc::Rc,
+  sync::{Arc, Mutex},
+};
+
+use bytes::Bytes;
+use mio_extras::channel as mio_channel;
+use speedy::{Endianness, Writable};
+
+use super::net;
+use crate::{
+  dds::{
+    qos::policy::{History, Reliability},
+    statusevents::{sync_status_channel, DataReaderStatus, DomainParticipantStatusEvent},
+    statusevents::StatusChannelReceiver,
+    typedesc::TypeDesc,
+    with_key::simpledatareader::ReaderCommand,
+  },
+  messages::submessages::submessages::AckSubmessage,
+  mio_source,
+  network::udp_sender::UDPSender,
+  rtps::{
+    message_receiver::MessageReceiver,
+    reader::{Reader, ReaderIngredients},
+    rtps_writer_proxy::RtpsWriterProxy,
+    Message,
+  },
+  security::{
+    config::{DomainParticipantSecurityConfigFiles, PrivateSigningKey},
+    security_plugins::{SecurityPlugins, SecurityPluginsHandle},
+    AccessControlBuiltin, AuthenticationBuiltin, CryptographicBuiltin,
+  },
+  structure::{
+    dds_cache::TopicCache,
+    guid::{EntityId, EntityKind, GuidPrefix, GUID},
+    locator::Locator,
+  },
+  Duration, QosPolicies, QosPolicyBuilder,
+};
+
+/// One local topic of the rig: a local reader and a local writer (the writer
+/// doubles as the peer's writer, the participant being its own peer).
+#[derive(Clone, Debug)]
+pub struct Endpoint {
+  pub name: &'static str,
+  pub topic: &'static str,
+  pub reader: [u8; 4],
+  pub writer: [u8; 4],
+  pub stateless: bool,
+  /// register peer endpoints + exchange key tokens (not done for the
+  /// unprotected builtin discovery topics, as in the crate)
+  pub key_exchange: bool,
+}
+
+fn eid(b: [u8; 4]) -> EntityId {
+  EntityId {
+    entity_key: [b[0], b[1], b[2]],
+    entity_kind: EntityKind::from(b[3]),
+  }
+}
+
+fn eid_bytes(e: EntityId) -> [u8; 4] {
+  [
+    e.entity_key[0],
+    e.entity_key[1],
+    e.entity_key[2],
+    e.entity_kind.into(),
+  ]
+}
+
+pub fn endpoints() -> Vec<Endpoint> {
+  let user = |name, topic, k: u8| Endpoint {
+    name,
+    topic,
+    reader: [0, 0, k, 0x07],
+    writer: [0, 0, k, 0x02],
+    stateless: false,
+    key_exchange: true,
+  };
+  let builtin = |name, topic, r: EntityId, w: EntityId, stateless, key_exchange| Endpoint {
+    name,
+    topic,
+    reader: eid_bytes(r),
+    writer: eid_bytes(w),
+    stateless,
+    key_exchange,
+  };
+  vec![
+    user("NN", "T_NN", 1),
+    user("EN", "T_EN", 2),
+    user("NE", "T_NE", 3),
+    user("EE", "T_EE", 4),
+    user("SN", "T_SN", 5),
+    user("NS", "T_NS", 6),
+    builtin(
+      "spdp",
+      "DCPSParticipant",
+      EntityId::SPDP_BUILTIN_PARTICIPANT_READER,
+      EntityId::SPDP_BUILTIN_PARTICIPANT_WRITER,
+      false,
+      false,
+    ),
+    builtin(
+      "stateless",
+      "DCPSParticipantStatelessMessage",
+      EntityId::P2P_BUILTIN_PARTICIPANT_STATELESS_READER,
+      EntityId::P2P_BUILTIN_PARTICIPANT_STATELESS_WRITER,
+      true,
+      false,
+    ),
+    builtin(
+      "volatile",
+      "DCPSParticipantVolatileMessageSecure",
+      EntityId::P2P_BUILTIN_PARTICIPANT_VOLATILE_SECURE_READER,
+      EntityId::P2P_BUILTIN_PARTICIPANT_VOLATILE_SECURE_WRITER,
+      false,
+      true,
+    ),
+    builtin(
+      "sedp",
+      "DCPSPublication",
+      EntityId::SEDP_BUILTIN_PUBLICATIONS_READER,
+      EntityId::SEDP_BUILTIN_PUBLICATIONS_WRITER,
+      false,
+      false,
+    ),
+  ]
+}
+
+/// What the plugins answered for one endpoint (diagnostic + model input
+/// cross-check): (reader: submessage protected, payload protected), (writer:
+/// submessage protected), registration errors
+#[derive(Clone, Debug, Default)]
+pub struct EndpointFacts {
+  pub reader_sub_protected: bool,
+  pub reader_payload_protected: bool,
+  pub writer_sub_protected: bool,
+  pub setup_errors: Vec<String>,
+}
+
+pub struct GateRig {
+  pub(crate) mr: MessageReceiver,
+  pub(crate) plugins: SecurityPluginsHandle,
+  pub(crate) caches: Vec<Arc<Mutex<TopicCache>>>,
+  pub(crate) acknack_receiver: mio_channel::Receiver<(GuidPrefix, AckSubmessage)>,
+  pub(crate) _spdp_liveness_receiver: mio_channel::Receiver<GuidPrefix>,
+  pub(crate) _participant_status_receiver: StatusChannelReceiver<DomainParticipantStatusEvent>,
+  pub(crate) _keepalive: Vec<Box<dyn std::any::Any>>,
+  pub eps: Vec<Endpoint>,
+  pub facts: Vec<EndpointFacts>,
+  pub own_prefix: [u8; 12],
+  pub rtps_protected: bool,
+  pub setup_errors: Vec<String>,
+}
+
+impl GateRig {
+  /// `dir`: fixture directory, `governance`: file name of the signed
+  /// governance document inside it.
+  pub fn new(dir: &str, governance: &str) -> Result<Self, String> {
+    net::capture_begin();
+    let d = PathBuf::from(dir);
+    let f = |n: &str| {
+      let mut p = d.clone();
+      p.push(n);
+      p
+    };
+    let configs = DomainParticipantSecurityConfigFiles {
+      identity_ca_certificate: f("identity_ca.cert.pem"),
+      participant_identity_certificate: f("cert.pem"),
+      participant_identity_private_key: PrivateSigningKey::Files {
+        file_path: f("key.pem"),
+        file_password: "password123".to_string(),
+      },
+      permissions_ca_certificate: f("permissions_ca.cert.pem"),
+      domain_governance_document: f(governance),
+      participant_permissions_document: f("permissions.p7s"),
+      certificate_revocation_list: None,
+    };
+    let participant_qos = QosPolicies {
+      property: Some(configs.into_property_policy()),
+      ..Default::default()
+    };
+    let mut sp = SecurityPlugins::new(
+      Box::new(AuthenticationBuiltin::new()),
+      Box::new(AccessControlBuiltin::new()),
+      Box::new(CryptographicBuiltin::new()),
+    );
+    let domain_id = 0u16;
+    let e = |what: &str, e: crate::security::SecurityError| format!("{what}: {}", e.msg);
+
+    // --- as DomainParticipantBuilder::build
+    let candidate = GUID::new(
+      GuidPrefix::new(&[0x01, 0x12, 7, 7, 7, 7, 7, 7, 7, 7, 7, 7]),
+      EntityId::PARTICIPANT,
+    );
+    let sec_guid = sp
+      .validate_local_identity(domain_id, &participant_qos, candidate)
+      .map_err(|x| e("validate_local_identity", x))?;
+    let own = sec_guid.prefix;
+    sp.validate_local_permissions(domain_id, own, &participant_qos)
+      .map_err(|x| e("validate_local_permissions", x))?;
+    match sp.check_create_participant(domain_id, own, &participant_qos) {
+      Ok(true) => {}
+      Ok(false) => return Err("check_create_participant: denied".into()),
+      Err(x) => return Err(e("check_create_participant", x)),
+    }
+    let part_attr = sp
+      .get_participant_sec_attributes(own)
+      .map_err(|x| e("get_participant_sec_attributes", x))?;
+    let rtps_protected = part_attr.is_rtps_protected;
+    sp.register_local_participant(own, participant_qos.property.clone(), part_attr)
+      .map_err(|x| e("register_local_participant", x))?;
+
+    // --- as SecureDiscovery::new: permission tokens, then the participant is its own peer
+    let mut setup_errors = vec![];
+    let ptok = sp.get_permissions_token(own);
+    let ctok = sp.get_permissions_credential_token(own);
+    match (ptok, ctok) {
+      (Ok(p), Ok(c)) => {
+        if let Err(x) = sp.set_permissions_credential_and_token(own, c, p) {
+          setup_errors.push(e("set_permissions_credential_and_token", x));
+        }
+      }
+      _ => setup_errors.push("permission tokens unavailable".to_string()),
+    }
+    let secret = sp
+      .get_shared_secret(own)
+      .map_err(|x| e("get_shared_secret(self)", x))?;
+    sp.register_matched_remote_participant(own, secret)
+      .map_err(|x| e("register_matched_remote_participant(self)", x))?;
+    let toks = sp
+      .create_local_participant_crypto_tokens(own)
+      .map_err(|x| e("create_local_participant_crypto_tokens", x))?;
+    sp.set_remote_participant_crypto_tokens(own, toks)
+      .map_err(|x| e("set_remote_participant_crypto_tokens", x))?;
+
+    // --- endpoints: as Subscriber/Publisher::create_* (attributes from access control,
+    // registration with crypto), then peer registration + key tokens as secure discovery
+    let eps = endpoints();
+    let mut facts = vec![];
+    for ep in &eps {
+      let mut fact = EndpointFacts::default();
+      let rg = GUID::new(own, eid(ep.reader));
+      let wg = GUID::new(own, eid(ep.writer));
+      match sp.get_reader_sec_attributes(rg, ep.topic.to_string()) {
+        Ok(attr) => {
+          if let Err(x) = sp.register_local_reader(rg, None, attr) {
+            fact.setup_errors.push(e("register_local_reader", x));
+          }
+        }
+        Err(x) => fact.setup_errors.push(e("get_reader_sec_attributes", x)),
+      }
+      match sp.get_writer_sec_attributes(wg, ep.topic.to_string()) {
+        Ok(attr) => {
+          if let Err(x) = sp.register_local_writer(wg, None, attr) {
+            fact.setup_errors.push(e("register_local_writer", x));
+          }
+        }
+        Err(x) => fact.setup_errors.push(e("get_writer_sec_attributes", x)),
+      }
+      if ep.key_exchange {
+        if let Err(x) = sp.register_matched_remote_reader_if_not_already(rg, wg, false) {
+          fact.setup_errors.push(e("register_matched_remote_reader", x));
+        }
+        if let Err(x) = sp.register_matched_remote_writer_if_not_already(wg, rg) {
+          fact.setup_errors.push(e("register_matched_remote_writer", x));
+        }
+        if ep.name != "volatile" {
+          match sp.create_local_writer_crypto_tokens(wg, rg) {
+            Ok(t) => {
+              if let Err(x) = sp.set_remote_writer_crypto_tokens(wg, rg, t) {
+                fact.setup_errors.push(e("set_remote_writer_crypto_tokens", x));
+              }
+            }
+            Err(x) => fact.setup_errors.push(e("create_local_writer_crypto_tokens", x)),
+          }
+          match sp.create_local_reader_crypto_tokens(rg, wg) {
+            Ok(t) => {
+              if let Err(x) = sp.set_remote_reader_crypto_tokens(rg, wg, t) {
+                fact.setup_errors.push(e("set_remote_reader_crypto_tokens", x));
+              }
+            }
+            Err(x) => fact.setup_errors.push(e("create_local_reader_crypto_tokens", x)),
+          }
+        }
+      }
+      fact.reader_sub_protected = !sp.submessage_not_protected(&rg);
+      fact.reader_payload_protected = !sp.payload_not_protected(&rg);
+      fact.writer_sub_protected = !sp.submessage_not_protected(&wg);
+      facts.push(fact);
+    }
+
+    let plugins = SecurityPluginsHandle::new(sp);
+
+    // --- receiver and readers
+    let (acknack_sender, acknack_receiver) =
+      mio_channel::sync_channel::<(GuidPrefix, AckSubmessage)>(4096);
+    let (spdp_liveness_sender, spdp_liveness_receiver) =
+      mio_channel::sync_channel::<GuidPrefix>(4096);
+    let (participant_status_sender, participant_status_receiver) =
+      sync_status_channel::<DomainParticipantStatusEvent>(4096).unwrap();
+    let mut mr = MessageReceiver::new(
+      own,
+      acknack_sender,
+      spdp_liveness_sender,
+      Some(plugins.clone()),
+    );
+    let qos = QosPolicyBuilder::new()
+      .reliability(Reliability::Reliable {
+        max_blocking_time: Duration::from_millis(100),
+      })
+      .history(History::KeepAll)
+      .build();
+    let qos_be = QosPolicyBuilder::new()
+      .reliability(Reliability::BestEffort)
+      .history(History::KeepAll)
+      .build();
+    let mut caches = vec![];
+    let mut keepalive: Vec<Box<dyn std::any::Any>> = vec![];
+    for ep in &eps {
+      let topic_cache = Arc::new(Mutex::new(TopicCache::new(
+        ep.topic.to_string(),
+        TypeDesc::new("VSample".to_string()),
+        &qos,
+      )));
+      let reader_guid = GUID::new(own, eid(ep.reader));
+      let (notification_sender, notification_receiver) = mio_channel::sync_channel::<()>(4);
+      let (status_sender, status_receiver) = sync_status_channel::<DataReaderStatus>(4).unwrap();
+      let (reader_command_sender, reader_command_receiver) =
+        mio_channel::sync_channel::<ReaderCommand>(0);
+      let data_reader_waker = Arc::new(Mutex::new(None));
+      let (poll_event_source, poll_event_sender) = mio_source::make_poll_channel().unwrap();
+      let ing = ReaderIngredients {
+        guid: reader_guid,
+        notification_sender,
+        status_sender,
+        topic_name: ep.topic.to_string(),
+        topic_cache_handle: topic_cache.clone(),
+        like_stateless: ep.stateless,
+        qos_policy: if ep.stateless { qos_be.clone() } else { qos.clone() },
+        data_reader_command_receiver: reader_command_receiver,
+        data_reader_waker,
+        poll_event_sender,
+        security_plugins: Some(plugins.clone()),
+      };
+      let mut reader = Reader::new(
+        ing,
+        Rc::new(UDPSender::new(0).unwrap()),
+        mio_extras::timer::Builder::default().build(),
+        participant_status_sender.clone(),
+      );
+      if !ep.stateless {
+        // the peer's writer on this topic, matched as discovery would
+        let loc = Locator::from(std::net::SocketAddr::from(([127, 0, 0, 1], 7777)));
+        let proxy = RtpsWriterProxy::new(
+          GUID::new(own, eid(ep.writer)),
+          vec![loc],
+          vec![],
+          EntityId::UNKNOWN,
+        );
+        reader.update_writer_proxy(proxy, &qos);
+      }
+      mr.add_reader(reader);
+      caches.push(topic_cache);
+      keepalive.push(Box::new(notification_receiver));
+      keepalive.push(Box::new(status_receiver));
+      keepalive.push(Box::new(reader_command_sender));
+      keepalive.push(Box::new(poll_event_source));
+    }
+
+    let mut p = [0u8; 12];
+    p.copy_from_slice(own.as_ref());
+    Ok(Self {
+      mr,
+      plugins,
+      caches,
+      acknack_receiver,
+      _spdp_liveness_receiver: spdp_liveness_receiver,
+      _participant_status_receiver: participant_status_receiver,
+      _keepalive: keepalive,
+      eps,
+      facts,
+      own_prefix: p,
+      rtps_protected,
+      setup_errors,
+    })
+  }
+
+  fn own(&self) -> GuidPrefix {
+    GuidPrefix::new(&self.own_prefix)
+  }
+
+  /// Feed one datagram to the real receiver.
+  pub fn inject(&mut self, datagram: &[u8]) {
+    net::capture_begin();
+    self
+      .mr
+      .handle_received_packet(&Bytes::copy_from_slice(datagram));
+    net::capture_take();
+  }
+
+  /// Sequence numbers (out of `candidates`) that reader `ep` has taken in:
+  /// present in its topic cache (any writer), or known to one of its writer
+  /// proxies as received / not available (DATA, DATAFRAG, GAP).
+  pub fn delivered_sns(&self, ep: usize, candidates: &[i64]) -> Vec<i64> {
+    let mut out: Vec<i64> = self.caches[ep]
+      .lock()
+      .unwrap()
+      .verif_sns()
+      .into_iter()
+      .filter(|sn| candidates.contains(sn))
+      .collect();
+    if let Some(r) = self.mr.available_readers.get(&eid(self.eps[ep].reader)) {
+      for sn in r.verif_known_sns(candidates) {
+        if !out.contains(&sn) {
+          out.push(sn);
+        }
+      }
+    }
+    out.sort_unstable();
+    out.dedup();
+    out
+  }
+
+  /// Sequence numbers in the topic cache of reader `ep` only.
+  pub fn cache_sns(&self, ep: usize) -> Vec<i64> {
+    self.caches[ep].lock().unwrap().verif_sns()
+  }
+
+  /// Last accepted HEARTBEAT count of every writer proxy of reader `ep`.
+  pub fn hb_counts(&self, ep: usize) -> Vec<i32> {
+    self
+      .mr
+      .available_readers
+      .get(&eid(self.eps[ep].reader))
+      .map(|r| r.verif_hb_counts())
+      .unwrap_or_default()
+  }
+
+  /// ACKNACKs handed to the event loop for local writers: (source prefix,
+  /// writer entity id, count)
+  pub fn drain_acknack_channel(&mut self) -> Vec<([u8; 12], [u8; 4], i32)> {
+    let mut out = Vec::new();
+    while let Ok((prefix, sub)) = self.acknack_receiver.try_recv() {
+      if let AckSubmessage::AckNack(a) = sub {
+        let mut p = [0u8; 12];
+        p.copy_from_slice(prefix.as_ref());
+        out.push((p, eid_bytes(a.writer_id), a.count));
+      }
+    }
+    out
+  }
+
+  fn split_submessages(bytes: &[u8]) -> Vec<Vec<u8>> {
+    // bytes: RTPS header (20) + submessages
+    let mut out = vec![];
+    let mut i = 20;
+    while i + 4 <= bytes.len() {
+      let le = bytes[i + 1] & 1 == 1;
+      let l = if le {
+        u16::from_le_bytes([bytes[i + 2], bytes[i + 3]])
+      } else {
+        u16::from_be_bytes([bytes[i + 2], bytes[i + 3]])
+      } as usize;
+      let end = if l == 0 && bytes[i] != 0x01 && bytes[i] != 0x09 {
+        bytes.len()
+      } else {
+        (i + 4 + l).min(bytes.len())
+      };
+      out.push(bytes[i..end].to_vec());
+      i = end;
+    }
+    out
+  }
+
+  /// Protect ONE plain writer / reader submessage (given as a complete
+  /// datagram with header + that submessage) with the keys of endpoint
+  /// `key_ep`, for the peer endpoint of the same topic, using the plugin's own
+  /// `encode_datawriter_submessage` / `encode_datareader_submessage`.
+  /// Returns the wire bytes of [prefix, body, postfix]; Err if the plugin
+  /// declined (topic not submessage protected) or failed.
+  pub fn wrap_submessage(
+    &self,
+    datagram: &[u8],
+    key_ep: usize,
+    reader_submessage: bool,
+  ) -> Result<Vec<Vec<u8>>, String> {
+    let msg = Message::read_from_buffer(&Bytes::copy_from_slice(datagram))
+      .map_err(|e| format!("parse: {e:?}"))?;
+    let header = msg.header;
+    let sub = msg
+      .submessages
+      .into_iter()
+      .next()
+      .ok_or_else(|| "no submessage".to_string())?;
+    let rg = GUID::new(self.own(), eid(self.eps[key_ep].reader));
+    let wg = GUID::new(self.own(), eid(self.eps[key_ep].writer));
+    let enc = if reader_submessage {
+      self
+        .plugins
+        .get_plugins()
+        .encode_datareader_submessage(sub, &rg, &[wg])
+    } else {
+      self
+        .plugins
+        .get_plugins()
+        .encode_datawriter_submessage(sub, &wg, &[rg])
+    }
+    .map_err(|e| format!("encode: {}", e.msg))?;
+    let subs: Vec<crate::rtps::Submessage> = enc.into();
+    if subs.len() != 3 {
+      return Err("not encoded (topic not submessage protected)".to_string());
+    }
+    let m = Message {
+      header,
+      submessages: subs,
+    };
+    let bytes = m
+      .write_to_vec_with_ctx(Endianness::LittleEndian)
+      .map_err(|e| format!("serialize: {e:?}"))?;
+    let parts = Self::split_submessages(&bytes);
+    if parts.len() != 3 {
+      return Err(format!("unexpected split into {} parts", parts.len()));
+    }
+    Ok(parts)
+  }
+
+  /// Payload protection with the plugin's own `encode_serialized_payload`
+  /// for the writer of endpoint `key_ep`. Returns (encoded payload, inline qos
+  /// bytes are not needed by the builtin plugin); Err if not payload protected.
+  pub fn encode_payload(&self, payload: &[u8], key_ep: usize) -> Result<Vec<u8>, String> {
+    let wg = GUID::new(self.own(), eid(self.eps[key_ep].writer));
+    if self.plugins.get_plugins().payload_not_protected(&wg) {
+      return Err("topic not payload protected".to_string());
+    }
+    self
+      .plugins
+      .get_plugins()
+      .encode_serialized_payload(payload.to_vec(), &wg)
+      .map(|(b, _qos)| b)
+      .map_err(|e| format!("encode payload: {}", e.msg))
+  }
+
+  /// RTPS-level protection of a complete datagram with the plugin's own
+  /// `encode_message` (source = destination = this participant). Returns the
+  /// datagram unchanged if the plugin decided not to protect it.
+  pub fn wrap_message(&self, datagram: &[u8]) -> Result<Vec<u8>, String> {
+    let msg = Message::read_from_buffer(&Bytes::copy_from_slice(datagram))
+      .map_err(|e| format!("parse: {e:?}"))?;
+    let own = self.own();
+    let enc = self
+      .plugins
+      .get_plugins()
+      .encode_message(msg, &own, &[own])
+      .map_err(|e| format!("encode_message: {}", e.msg))?;
+    enc
+      .write_to_vec_with_ctx(Endianness::LittleEndian)
+      .map_err(|e| format!("serialize: {e:?}"))
+  }
+}
